@@ -148,7 +148,8 @@ class Panel(JupyterMixin):
         line_start = Segment(box.mid_left, border_style)
         line_end = Segment(f"{box.mid_right}", border_style)
         new_line = Segment.line()
-        if title_text is None:
+        if title_text is None or width < 4:
+            # (a title needs the two corners and a border cell on either side: no room, no title)
             yield Segment(box.get_top([width - 2]), border_style)
         else:
             title_text.align(self.title_align, width - 4, character=box.top)
